@@ -471,7 +471,20 @@ def history_templates(x):
     rng = random.Random(x["seed"])
     alphabet = "abcdefghijklmnopqrstuvwxyzABCDEFGHIJKLMNOPQRSTUVWXYZ0123456789-_/:. "
 
+    seen = []
+
     def fresh(j):
+        # mostly never-seen content, but real workloads also repeat themselves: one value in five is one that this history
+        # already used (recently, or long ago) -- added after seeded change C19-r3m2 (a most-recently-used memo whose
+        # bookkeeping breaks when a remembered string comes back)
+        if seen and rng.random() < 0.2:
+            return rng.choice(seen[-40:] if rng.random() < 0.5 else seen)
+        v = fresh_value(j)
+        if isinstance(v, (str, int)):
+            seen.append(v)
+        return v
+
+    def fresh_value(j):
         kind = x["kind"]
         tok = "".join(rng.choice(alphabet) for _ in range(rng.randint(3, 18))) + f"{x['seed']}x{j}"
         if kind == "text":
